@@ -13,6 +13,12 @@ CONSTANTS
   Ops = {"CtxDeregister", "DropRef", "Dispatch", "CtxQuit", "ModPause", "ModResume", "ModStop", "Tell", "Pill"}
   CbOps = {}
   EvalVals = {TRUE}
+  Prios = {"N"}
+  BatchSizes = {}
+  UnstashNs = {}
+  HandlerIds = {}
+  Targets = {"A", "B"}
+  AutoVals = {TRUE, FALSE}
   Senders = {"A"}
   QuitCodes = {1}
   Setup = "loop2"
